@@ -2,6 +2,7 @@ import Rangers.Basic.Line
 import Rangers.Basic.Hex
 import Rangers.Model.Round
 import Rangers.Model.RoundLife
+import Rangers.Model.RoundWire
 import Rangers.Generated.C15Facts
 /-
 Driver for C15. Ops (one per line):
@@ -88,7 +89,7 @@ def showLife (c : Crypto Sym) (env : Env) (l : Life Sym) (strayKey : Data) : Str
   let stg := match l.stage with
     | .noParty => "none" | .r0 => "r0" | .r0ready => "r0ready" | .signing => "signing" | .gone => "gone"
   let proc := if l.stage = .signing then showState c env l.proc strayKey else "-"
-  s!"st={stg} stored={l.stored.length} pf={l.pfuture.length} k0={b01 l.key0Done} to={b01 l.timedOut} rej={b01 l.rejected} | {proc}"
+  s!"st={stg} stored={l.stored.length} pf={(l.pfuture env).length} keys={(if l.stage = .signing then l.proc.stray.items.length else l.parked.items.length)} k0={b01 l.key0Done} to={b01 l.timedOut} rej={b01 l.rejected} | {proc}"
 
 def filedOf : Wire Sym → Data → Data
   | .ok m, _ => m.blockHash
@@ -180,6 +181,14 @@ def step (s : Option St) (line : String) : Option St × String :=
         (some { st with proc := some r.1 }, showState c st.env r.1 (filedOf w st.env.hash))
       | none => (s, "bad-op")
     | _, _ => (s, "bad-op")
+  | ["wire", bh, rs, dh, ds, sm] =>
+    match ofHex? bh, ofHex? rs, ofHex? dh, ofHex? ds, ofHex? sm with
+    | some bh, some rs, some dh, some ds, some sm =>
+      match decodeFields { blockHash := bh, randomSign := rs, dataHash := dh, dataSign := ds, signMember := sm } with
+      | none => (s, "dropped")
+      | some d =>
+        (s, s!"bh={toHex d.blockHash} dh={toHex d.dataHash} id={d.signer} over={b01 d.oversize} nz={b01 d.signerNonZero} sn={b01 d.sigNil} rn={b01 d.randNil}")
+    | _, _, _, _, _ => (s, "bad-op")
   | ["groupk", n] =>
     match nat? n with
     | some n => (s, s!"k={groupK n}")
